@@ -77,7 +77,8 @@ Txt == [k |-> "txt"]
 TblCols == 2
 TblRows == 2
 EmptyTbl == [k |-> "tbl", cols |-> TblCols, cells |-> [i \in 1..(TblCols * TblRows) |-> <<>>]]
-Old(p) == IF p.k = "pic" THEN [p EXCEPT !.new = FALSE, !.szk = "", !.tx = 0, !.ty = 0] ELSE p
+\* (the tolerance stays with a picture until it has been observed: the judge replaces observed pictures by exact ones)
+Old(p) == IF p.k = "pic" THEN [p EXCEPT !.new = FALSE, !.szk = ""] ELSE p
 OldSeq(q) == [i \in 1..Len(q) |-> Old(q[i])]
 OldEl(e) == IF e.k = "tbl" THEN [e EXCEPT !.cells = [c \in 1..Len(e.cells) |-> OldSeq(e.cells[c])]] ELSE Old(e)
 OldBody(b) == [i \in 1..Len(b) |-> OldEl(b[i])]
@@ -298,17 +299,26 @@ DiffEntry(e, o) ==
            \cup (IF ~Near(e.cx, o.cx, e.tx) \/ ~Near(e.cy, o.cy, e.ty)
               THEN {<<"extent", which, e.szk>>} ELSE {}))
      \cup (IF e.w # o.w \/ e.t # o.t \/ e.c # o.c THEN {<<"placement", which, e.w>>} ELSE {})
-NKind(V, k) == Len(SelectSeq(V, LAMBDA x : x.k = k))
+\* number of entries of kind k in container <<w, t, c>>
+NIn(V, k, w, t, c) == Len(SelectSeq(V, LAMBDA x : x.k = k /\ x.w = w /\ x.t = t /\ x.c = c))
+Containers(V) == {<<V[i].w, V[i].t, V[i].c>> : i \in 1..Len(V)}
+Viol_Count(E, O) ==
+  UNION {LET ep == NIn(E, "pic", q[1], q[2], q[3])   op == NIn(O, "pic", q[1], q[2], q[3])
+             eh == NIn(E, "ph", q[1], q[2], q[3])    oh == NIn(O, "ph", q[1], q[2], q[3])
+         IN (IF op < ep THEN {<<"fewer-pictures", q[1], "">>} ELSE IF op > ep THEN {<<"more-pictures", q[1], "">>} ELSE {})
+            \cup (IF oh > eh THEN {<<"placeholder-left", q[1], "">>} ELSE IF oh < eh THEN {<<"placeholder-lost", q[1], "">>} ELSE {})
+         : q \in Containers(E) \cup Containers(O)}
 Viol_View(E, O) ==
-  IF NKind(E, "pic") # NKind(O, "pic")
-  THEN {<<IF NKind(O, "pic") < NKind(E, "pic") THEN "fewer-pictures" ELSE "more-pictures", "count", "">>}
-  ELSE IF NKind(E, "ph") # NKind(O, "ph")
-  THEN {<<IF NKind(O, "ph") > NKind(E, "ph") THEN "placeholder-left" ELSE "placeholder-lost", "count", "">>}
+  IF Viol_Count(E, O) # {} THEN Viol_Count(E, O)
+  ELSE IF Len(E) # Len(O) THEN {<<"order", "count", "">>}
   ELSE UNION {DiffEntry(E[i], O[i]) : i \in 1..Len(E)}
 \* every image handed over is stored, unmodified, in some media part
 Viol_Media(exp, obs) ==
   {<<"media-lost", "token", "">> : t \in {m.tok : m \in exp.media} \ {m.tok : m \in obs.media}}
-Viol_C10(exp, obs) == Viol_View(View(exp), View(obs)) \cup Viol_Media(exp, obs)
+\* (a picture that is missing altogether is reported once, as a missing picture)
+Viol_C10(exp, obs) ==
+  Viol_View(View(exp), View(obs))
+  \cup (IF Viol_Count(View(exp), View(obs)) = {} THEN Viol_Media(exp, obs) ELSE {})
 
 \* ---- design-level statements about the reference machine ----------------------
 RelIdsUnique(s) == \A i, j \in 1..Len(s.rels) : i # j => s.rels[i].id # s.rels[j].id
